@@ -223,7 +223,14 @@ pub fn run(tier: Tier) -> RunOutcome {
         Tier::Thorough => GenOpts::thorough(),
     };
     opts.max_scale_pow = 3;
-    let prob = with_sim(|s| gen_problem(&mut s.cs, &opts));
+    let mut prob = with_sim(|s| gen_problem(&mut s.cs, &opts));
+    // some right-hand sides at or above the infinity bound: rows dropped by presolve,
+    // entries capped elsewhere - the report is about the reduced problem then
+    if chance("plant_inf", 1, 5) {
+        let bound = with_sim(|s| s.inf_model);
+        crate::props::c20::plant_infinite_bounds(&mut prob, bound, false);
+        probe("c03_infinite_bounds_planted");
+    }
     let verbose = false;
     let settings = with_sim(|s| gen_settings(&mut s.cs, verbose));
 
